@@ -1,6 +1,7 @@
 import SkyllhModel.Proto
 import SkyllhModel.Model.Load
 import SkyllhModel.Model.LoadI3
+import SkyllhModel.Model.LoadDispatchR7
 open Proto Load
 
 /-  requests (one per line; names are tokens without blank , : ; | / = characters; cells are integers:
@@ -29,7 +30,20 @@ open Proto Load
       alias <listed names|-> <app:name|pop|rev|clear,…>  -> the data set's file list after the caller changed its own list object
       abspaths <root_dir> <a:name|r:name,…>  -> resolved names in listed order (get_abs_pathfilename_list)
       orcheck <stage> <stages>  -> 0|1
+    round 7 (strings = code points joined by `.`, `e` = the empty string):
+      dispatch <fmt:tag,…|-> <str|seq|other> <names|->   -> ok <tag> <names> | err <class>       (create_FileLoader)
+      register <fmt:tag,…|-> <str|seq|other> <formats|-> <isLoader 0|1> <tag>  -> <registry after the call> ok|err <class>
+      header <comment> <sep|*> <line> <keep|*>  -> ok <names> <usecols|*> | err <class>   (TextFileLoader: header line, usecols)
 -/
+
+def pStr (s : String) : LoadR7.Str := if s == "e" then [] else (s.splitOn ".").map String.toNat!
+def fStr (s : LoadR7.Str) : String := if s.isEmpty then "e" else String.intercalate "." (s.map toString)
+def pReg (s : String) : List (LoadR7.Str × String) :=
+  pList (fun x => match x.splitOn ":" with | [a, b] => (pStr a, b) | _ => ([], "?")) s
+def fReg (r : List (LoadR7.Str × String)) : String := fListD (fun (e : LoadR7.Str × String) => fStr e.1 ++ ":" ++ e.2) r
+def fDErr : LoadR7.DErr → String
+  | .typeError => "typeError" | .keyError => "keyError" | .indexError => "indexError" | .noLoader => "noLoader"
+  | .valueError => "valueError" | .noColumns => "noColumns"
 
 abbrev F := File String DT Int
 abbrev A := Arr String DT Int
@@ -204,6 +218,24 @@ def answer (line : String) : String :=
       if x.startsWith "a:" then PathEntry.abs (x.drop 2).toString else PathEntry.rel (x.drop 2).toString)
     fListD id (getAbsPaths (fun p => root ++ "/" ++ p) es)
   | ["orcheck", a, b] => fB (orCheck (pN a) (pN b))
+  | ["dispatch", reg, form, names] =>
+    let ps := pList pStr names
+    let arg : LoadR7.PathArg := if form == "str" then .str (ps.headD []) else if form == "seq" then .seq ps else .other
+    match LoadR7.createLoader (pReg reg) arg with
+    | .ok (cls, l) => s!"ok {cls} {fListD fStr l}"
+    | .error e => "err " ++ fDErr e
+  | ["register", reg, form, fmts, isL, tag] =>
+    let fs := pList pStr fmts
+    let arg : LoadR7.FmtArg := if form == "str" then .str (fs.headD []) else if form == "seq" then .seq fs else .other
+    match LoadR7.registerLoader (pReg reg) arg (pB isL) tag with
+    | (r, none) => fReg r ++ " ok"
+    | (r, some e) => fReg r ++ " err " ++ fDErr e
+  | ["header", comment, sep, line, keep] =>
+    let sp : Option LoadR7.Str := if sep == "*" then none else some (pStr sep)
+    let kp : Option (List LoadR7.Str) := if keep == "*" then none else some (pList pStr keep)
+    match LoadR7.headerSelect (pStr comment) sp (pStr line) kp with
+    | .ok (names, uc) => s!"ok {fListD fStr names} " ++ (match uc with | none => "*" | some l => fListD toString l)
+    | .error e => "err " ++ fDErr e
   | _ => "bad-op"
 
 def main : IO Unit := do loop (← IO.getStdin) answer
